@@ -62,6 +62,16 @@ var vc06Main = []vc06Sym{
 	{"~", lex.TTilde}, {"^", lex.TCarrot},
 }
 
+// vc06Reduced: one representative per syntactic role (second word, float, negative
+// number, curly brackets and '<' left out); enumerated one symbol longer than vc06Main.
+var vc06Reduced = []vc06Sym{
+	{"a", lex.TLiteral}, {`"q r"`, lex.TQuoted}, {"7", lex.TLiteral}, {"w*", lex.TLiteral}, {"/r/", lex.TRegexp},
+	{"AND", lex.TAnd}, {"OR", lex.TOr}, {"NOT", lex.TNot}, {"TO", lex.TTO},
+	{"(", lex.TLParen}, {")", lex.TRParen}, {"[", lex.TLSquare}, {"]", lex.TRSquare},
+	{":", lex.TColon}, {"=", lex.TEqual}, {">", lex.TGreater}, {"+", lex.TPlus}, {"-", lex.TMinus},
+	{"~", lex.TTilde}, {"^", lex.TCarrot},
+}
+
 // vc06Extra: further lexemes of the term classes (they behave like the terms above
 // syntactically, so they are enumerated to a smaller length bound).
 var vc06Extra = []vc06Sym{
@@ -223,7 +233,8 @@ const (
 	vc06FAmountVal             // the distance / power in the node is not the number typed
 	vc06FLeaf                  // a leaf does not carry the typed value of its token
 	vc06FEmpty                 // empty groups () were silently dropped
-	vc06NFlags     = 7
+	vc06FParenField            // the field name of field:E stands inside parentheses
+	vc06NFlags     = 8
 )
 
 var vc06FlagCat = [vc06NFlags]string{
@@ -234,6 +245,7 @@ var vc06FlagCat = [vc06NFlags]string{
 	"fuzzy-boost-amount-value",
 	"leaf-typed-value",
 	"empty-group-dropped",
+	"parenthesized-field-name",
 }
 
 type vc06Pair struct {
@@ -326,6 +338,30 @@ func (m *vc06M) node(x any, i, j int) vc06Res {
 	return r
 }
 
+// field: a field name starts at i; returns the index after it.  The grammar has a
+// single term token there; relaxed (vc06FParenField) it may stand in parentheses.
+func (m *vc06M) field(x any, i, j int) (vc06Res, int) {
+	if r := m.leaf(x, i, true); r.ok {
+		return r, i + 1
+	}
+	if m.flags&vc06FParenField != 0 {
+		d := 0
+		for i+d < j && m.typ(i+d) == lex.TLParen {
+			d++
+		}
+		if d > 0 && i+2*d < j {
+			closed := true
+			for k := 1; k <= d; k++ {
+				closed = closed && m.typ(i+d+k) == lex.TRParen
+			}
+			if r := m.leaf(x, i+d, true); closed && r.ok {
+				return r, i + 2*d + 1
+			}
+		}
+	}
+	return vc06Res{}, i
+}
+
 func (m *vc06M) fieldOp(i int, allowEq bool) bool {
 	if m.typ(i) == lex.TColon {
 		return true
@@ -352,25 +388,22 @@ func (m *vc06M) node1(e *expr.Expression, i, j int) vc06Res {
 			return m.leaf(e, i, false)
 		}
 	case expr.Equals, expr.Like, expr.In:
-		if j-i < 3 || !m.fieldOp(i+1, true) {
-			break
-		}
-		f := m.leaf(e.Left, i, true)
-		if !f.ok {
+		f, c := m.field(e.Left, i, j)
+		if !f.ok || j-c < 2 || !m.fieldOp(c, true) {
 			break
 		}
 		var v vc06Res
 		switch e.Op {
 		case expr.Equals:
-			v = m.node(e.Right, i+2, j)
+			v = m.node(e.Right, c+1, j)
 		case expr.Like:
 			if r, isE := e.Right.(*expr.Expression); isE && r != nil && (r.Op == expr.Wild || r.Op == expr.Regexp) {
-				v = m.node(r, i+2, j)
+				v = m.node(r, c+1, j)
 			}
 		case expr.In:
 			if r, isE := e.Right.(*expr.Expression); isE && r != nil && r.Op == expr.List && r.Right == nil {
 				if items, isL := r.Left.([]*expr.Expression); isL && len(items) >= 1 {
-					v = m.list(items, i+2, j)
+					v = m.list(items, c+1, j)
 				}
 			}
 		}
@@ -378,51 +411,49 @@ func (m *vc06M) node1(e *expr.Expression, i, j int) vc06Res {
 			return vc06Res{true, vc06Cat(f.w, v.w)}
 		}
 	case expr.Greater, expr.Less, expr.GreaterEq, expr.LessEq:
-		n := 3 // field : >
+		n := 2 // : >
 		if e.Op == expr.GreaterEq || e.Op == expr.LessEq {
-			n = 4 // field : > =
+			n = 3 // : > =
 		}
-		if j-i < n+1 || m.typ(i+1) != lex.TColon {
+		f, c := m.field(e.Left, i, j)
+		if !f.ok || j-c < n+1 || m.typ(c) != lex.TColon {
 			break
 		}
 		want := lex.TGreater
 		if e.Op == expr.Less || e.Op == expr.LessEq {
 			want = lex.TLess
 		}
-		if m.typ(i+2) != want || (n == 4 && m.typ(i+3) != lex.TEqual) {
+		if m.typ(c+1) != want || (n == 3 && m.typ(c+2) != lex.TEqual) {
 			break
 		}
-		f := m.leaf(e.Left, i, true)
-		if !f.ok {
-			break
-		}
-		if j == i+n+1 {
-			if v := m.leaf(e.Right, i+n, false); v.ok {
+		if j == c+n+1 {
+			if v := m.leaf(e.Right, c+n, false); v.ok {
 				return vc06Res{true, vc06Cat(f.w, v.w)}
 			}
 		}
 		if m.flags&vc06FCmp != 0 {
-			if v := m.node(e.Right, i+n, j); v.ok {
+			if v := m.node(e.Right, c+n, j); v.ok {
 				return vc06Res{true, vc06Cat(f.w, v.w)}
 			}
 		}
 	case expr.Range:
 		b, isB := e.Right.(*expr.RangeBoundary)
-		if !isB || b == nil || j != i+7 || !m.fieldOp(i+1, false) || m.typ(i+4) != lex.TTO {
+		if !isB || b == nil {
 			break
 		}
-		o, c := m.typ(i+2), m.typ(i+6)
-		incl := o == lex.TLSquare && c == lex.TRSquare
-		excl := o == lex.TLCurly && c == lex.TRCurly
-		mixed := (o == lex.TLSquare && c == lex.TRCurly) || (o == lex.TLCurly && c == lex.TRSquare)
-		switch {
-		case incl && b.Inclusive, excl && !b.Inclusive:
-		case mixed && m.flags&vc06FMixed != 0:
-		default:
-			return vc06Res{}
+		f, c := m.field(e.Left, i, j) // then  : [ a TO b ]
+		if !f.ok || j != c+6 || !m.fieldOp(c, false) || m.typ(c+3) != lex.TTO {
+			break
 		}
-		f, lo, hi := m.leaf(e.Left, i, true), m.leaf(b.Min, i+3, false), m.leaf(b.Max, i+5, false)
-		if f.ok && lo.ok && hi.ok {
+		o, cl := m.typ(c+1), m.typ(c+5)
+		incl := o == lex.TLSquare && cl == lex.TRSquare
+		excl := o == lex.TLCurly && cl == lex.TRCurly
+		mixed := (o == lex.TLSquare && cl == lex.TRCurly) || (o == lex.TLCurly && cl == lex.TRSquare)
+		if !(incl && b.Inclusive) && !(excl && !b.Inclusive) && !(mixed && m.flags&vc06FMixed != 0) {
+			break
+		}
+		lo, hi := m.leaf(b.Min, c+2, false), m.leaf(b.Max, c+4, false)
+		if lo.ok && hi.ok {
 			return vc06Res{true, vc06Cat(vc06Cat(f.w, lo.w), hi.w)}
 		}
 	case expr.Not, expr.Must, expr.MustNot:
@@ -808,8 +839,33 @@ func (s *vc06Stats) merge(o *vc06Stats) {
 // vc06Check runs the statement of C06 on one input in both configurations.
 // want (may be nil) is the symbol sequence the input was rendered from.
 func vc06Check(st *vc06Stats, in string, want []vc06Sym) {
-	toks, lexOK, pan := vc06Tokens(in)
 	q := strconv.Quote(in)
+	type outcome struct {
+		cfg string
+		df  string
+		e   *expr.Expression
+	}
+	var acc []outcome
+	for _, df := range []string{"", vc06Field} {
+		st.evals++
+		cfg := "no default field"
+		if df != "" {
+			cfg = "default field " + strconv.Quote(df)
+		}
+		e, err, pan := vc06Parse(in, df)
+		if pan != "" {
+			st.fail("panic", len(want), in, fmt.Sprintf("[panic] %s : Parse (%s) panicked: %s", q, cfg, pan))
+			continue
+		}
+		if err == nil && e != nil {
+			acc = append(acc, outcome{cfg, df, e})
+		}
+	}
+	if len(acc) == 0 {
+		return // rejected: nothing to derive (whether it should have been accepted is not C06)
+	}
+	st.accepted++
+	toks, lexOK, pan := vc06Tokens(in)
 	if pan != "" {
 		st.fail("panic", len(want), in, fmt.Sprintf("[panic] %s : the lexer panicked: %s", q, pan))
 		return
@@ -824,35 +880,44 @@ func vc06Check(st *vc06Stats, in string, want []vc06Sym) {
 				fmt.Sprintf("[token-list-differs-from-typed-symbols] %s : expected the %d space-separated symbols as tokens, lexer returned %v (complete=%v)", q, len(want), toks, lexOK))
 		}
 	}
-	accepted := false
-	for _, df := range []string{"", vc06Field} {
-		st.evals++
-		cfg := "no default field"
-		if df != "" {
-			cfg = "default field " + strconv.Quote(df)
-		}
-		e, err, pan := vc06Parse(in, df)
-		if pan != "" {
-			st.fail("panic", len(toks), in, fmt.Sprintf("[panic] %s : Parse (%s) panicked: %s", q, cfg, pan))
-			continue
-		}
-		if err != nil || e == nil {
-			continue
-		}
-		accepted = true
+	for _, o := range acc {
 		if !lexOK {
 			st.fail("accepted-despite-lexical-error", len(toks), in,
-				fmt.Sprintf("[accepted-despite-lexical-error] %s : the lexer reports an error after %d tokens, expected rejection, Parse (%s) returned %s", q, len(toks), cfg, vc06Show(e)))
+				fmt.Sprintf("[accepted-despite-lexical-error] %s : the lexer reports an error after %d tokens, expected rejection, Parse (%s) returned %s", q, len(toks), o.cfg, vc06Show(o.e)))
 			continue
 		}
-		for _, cat := range vc06Derive(toks, e, df) {
+		for _, cat := range vc06Derive(toks, o.e, o.df) {
+			why := vc06Why[cat]
+			if why == "" {
+				why = "no derivation of the tokens in the documented grammar yields this tree"
+			}
 			st.fail(cat, len(toks), in,
-				fmt.Sprintf("[%s] %s : expected a tree that is a derivation of the %d tokens %v in the documented grammar, Parse (%s) returned %s", cat, q, len(toks), toks, cfg, vc06Show(e)))
+				fmt.Sprintf("[%s] %s : expected the tree to be a derivation of the %d tokens %v in the documented grammar (%s); Parse (%s) returned %s", cat, q, len(toks), toks, why, o.cfg, vc06Show(o.e)))
 		}
 	}
-	if accepted {
-		st.accepted++
-	}
+}
+
+// vc06Why: what the statement demands and the tree violates, per category.
+var vc06Why = map[string]string{
+	"equals-sign-as-field-operator":         "'=' alone is no operator of the grammar - field:E is written with ':' -, the tree fits only if '=' is read as ':'",
+	"comparison-value-not-a-term":           "field:>v compares with a single value, the tree has a compound expression there",
+	"range-mixed-brackets":                  "brackets must pair up: a range opened with '[' was closed with '}' or vice versa and the tree records only one kind",
+	"fuzzy-boost-amount-not-a-number-token": "in E~n / E^n the amount is one number token; here other tokens (an operator, a group, a quoted string, a word) were folded into the amount and have no node",
+	"fuzzy-boost-amount-value":              "the distance/power stored in the node is not the number that was typed",
+	"empty-group-dropped":                   "brackets pair up around non-empty groups; an empty () was dropped silently",
+	"parenthesized-field-name":              "the field of field:E is a single term token; here the field name was taken from a parenthesized group",
+	"leaf-typed-value":                      "a leaf does not carry the typed value of its term token",
+	"field-leaf-typed-value":                "the field leaf does not carry the value of its term token",
+	"single-quoted-value-keeps-quotes":      "a quoted string token stands for the text between its quotes; the leaf still contains the single quotes",
+	"quoted-string-retyped-as-pattern":      "a quoted string token is a string leaf; the tree holds a wildcard/regexp leaf",
+	"quoted-string-retyped-as-number":       "a quoted string token is a string leaf; the tree holds a number",
+	"word-typed-as-number":                  "a word that is not a decimal numeral is a string leaf; the tree holds a number",
+	"escaped-wildcard-typed-as-pattern":     "a word whose * and ? are all escaped is a plain string; the tree holds a wildcard leaf / the raw escaped text",
+	"escaped-backslash-dropped":             "an escaped backslash stands for a backslash; the leaf lost it",
+	"term-invented":                         "the tree has more leaves than the input has term tokens",
+	"term-token-dropped":                    "the input has term tokens that are no leaf of the tree",
+	"operator-token-dropped":                "the input has operator tokens that no node consumes",
+	"operator-invented":                     "the tree has operator nodes without a source token",
 }
 
 // ---- enumeration ------------------------------------------------------------------------------------
@@ -865,25 +930,35 @@ func vc06Render(seq []vc06Sym) string {
 	return strings.Join(parts, " ")
 }
 
-// vc06Enumerate checks every sequence of 1..maxLen symbols over alpha; when
+// vc06Enumerate checks every sequence of minLen..maxLen symbols over alpha; when
 // needFrom >= 0 only sequences containing a symbol with index >= needFrom.
-func vc06Enumerate(alpha []vc06Sym, maxLen, needFrom int, total *vc06Stats, samples *[]string) {
+// It returns the number of inputs checked.
+func vc06Enumerate(alpha []vc06Sym, minLen, maxLen, needFrom int, total *vc06Stats) int64 {
+	if maxLen < 1 || maxLen < minLen {
+		return 0
+	}
 	type task struct{ first, second int } // second < 0: the one-symbol sequence itself
 	tasks := make(chan task, 64)
 	var mu sync.Mutex
 	var wg sync.WaitGroup
+	var inputs int64
 	for w := 0; w < runtime.NumCPU(); w++ {
 		wg.Add(1)
 		go func() {
 			defer wg.Done()
 			st := vc06NewStats()
+			var n int64
 			seq := make([]vc06Sym, 0, maxLen)
 			extra := func(k int) bool { return needFrom >= 0 && k >= needFrom }
-			var rec func(hasExtra bool)
-			rec = func(hasExtra bool) {
-				if needFrom < 0 || hasExtra {
+			visit := func(hasExtra bool) {
+				if len(seq) >= minLen && (needFrom < 0 || hasExtra) {
+					n++
 					vc06Check(st, vc06Render(seq), seq)
 				}
+			}
+			var rec func(hasExtra bool)
+			rec = func(hasExtra bool) {
+				visit(hasExtra)
 				if len(seq) == maxLen {
 					return
 				}
@@ -896,9 +971,7 @@ func vc06Enumerate(alpha []vc06Sym, maxLen, needFrom int, total *vc06Stats, samp
 			for t := range tasks {
 				if t.second < 0 {
 					seq = append(seq[:0], alpha[t.first])
-					if needFrom < 0 || extra(t.first) {
-						vc06Check(st, vc06Render(seq), seq)
-					}
+					visit(extra(t.first))
 					continue
 				}
 				seq = append(seq[:0], alpha[t.first], alpha[t.second])
@@ -906,6 +979,7 @@ func vc06Enumerate(alpha []vc06Sym, maxLen, needFrom int, total *vc06Stats, samp
 			}
 			mu.Lock()
 			total.merge(st)
+			inputs += n
 			mu.Unlock()
 		}()
 	}
@@ -919,24 +993,126 @@ func vc06Enumerate(alpha []vc06Sym, maxLen, needFrom int, total *vc06Stats, samp
 	}
 	close(tasks)
 	wg.Wait()
-	// fixed sample of the domain
-	n := len(alpha)
-	for _, idx := range [][]int{{0}, {0, 18, 1}, {10, 0, 8, 1}, {0, 18, 14, 3, 11}, {n - 1, 0}} {
-		if len(idx) > maxLen || len(*samples) >= 12 {
-			continue
+	return inputs
+}
+
+// vc06Templates: sentences longer than the exhaustive bound (ranges, value lists, the
+// examples quoted in the property text); every token sequence within two symbol
+// substitutions, or one deletion, or one insertion of one of them is checked.
+var vc06Templates = [][]string{
+	{"a", ":", "[", "7", "TO", "b", "]"},
+	{"a", ":", "{", "7", "TO", "b", "}"},
+	{"a", ":", "(", "b", "OR", "7", ")"},
+	{"a", ":", ">", "(", "b", "7", ")"},
+	{"(", "(", ")", "NOT", "a", ")"},
+	{"a", ":", "[", "b", ":", "7", "TO", "7", "]"},
+	{"NOT", "a", ":", "b", "~", "7", "^", "7"},
+}
+
+// vc06Covered: the canonical rendering of these symbols already belongs to one of the
+// exhaustive domains (1)-(3), so other domains skip it (inputs are counted once).
+type vc06Bounds struct{ mainLen, redLen, extraLen int }
+
+func (b vc06Bounds) covered(parts []string) bool {
+	if len(parts) <= b.mainLen {
+		inMain := true
+		for _, p := range parts {
+			inMain = inMain && vc06In(vc06Main, p)
 		}
-		seq := []vc06Sym{}
-		for _, k := range idx {
-			seq = append(seq, alpha[k%n])
-		}
-		q, dup := strconv.Quote(vc06Render(seq)), false
-		for _, have := range *samples {
-			dup = dup || have == q
-		}
-		if !dup {
-			*samples = append(*samples, q)
+		if inMain {
+			return true
 		}
 	}
+	if len(parts) <= b.redLen {
+		inRed := true
+		for _, p := range parts {
+			inRed = inRed && vc06In(vc06Reduced, p)
+		}
+		if inRed {
+			return true
+		}
+	}
+	if len(parts) <= b.extraLen {
+		known := true
+		for _, p := range parts {
+			known = known && (vc06In(vc06Main, p) || vc06In(vc06Extra, p))
+		}
+		return known
+	}
+	return false
+}
+
+func vc06In(a []vc06Sym, text string) bool {
+	for _, s := range a {
+		if s.text == text {
+			return true
+		}
+	}
+	return false
+}
+
+func vc06Neighbourhood(all []vc06Sym, bounds vc06Bounds, total *vc06Stats) int64 {
+	bySym := map[string]vc06Sym{}
+	for _, s := range all {
+		bySym[s.text] = s
+	}
+	var jobs [][]vc06Sym
+	seen := map[string]bool{}
+	add := func(seq []vc06Sym) {
+		k := vc06Render(seq)
+		if !seen[k] && !bounds.covered(vc06Texts(seq)) {
+			seen[k] = true
+			jobs = append(jobs, append([]vc06Sym(nil), seq...))
+		}
+	}
+	for _, tpl := range vc06Templates {
+		base := make([]vc06Sym, len(tpl))
+		for i, t := range tpl {
+			base[i] = bySym[t]
+		}
+		add(base)
+		cur := append([]vc06Sym(nil), base...)
+		for i := range base {
+			for _, x := range all {
+				cur[i] = x
+				add(cur)
+				for j := i + 1; j < len(base); j++ {
+					for _, y := range all {
+						cur[j] = y
+						add(cur)
+					}
+					cur[j] = base[j]
+				}
+			}
+			cur[i] = base[i]
+		}
+		for i := range base { // one deletion
+			add(append(append([]vc06Sym(nil), base[:i]...), base[i+1:]...))
+		}
+		for i := 0; i <= len(base); i++ { // one insertion
+			for _, x := range all {
+				add(append(append(append([]vc06Sym(nil), base[:i]...), x), base[i:]...))
+			}
+		}
+	}
+	var wg sync.WaitGroup
+	var mu sync.Mutex
+	workers := runtime.NumCPU()
+	for w := 0; w < workers; w++ {
+		wg.Add(1)
+		go func(w int) {
+			defer wg.Done()
+			st := vc06NewStats()
+			for k := w; k < len(jobs); k += workers {
+				vc06Check(st, vc06Render(jobs[k]), jobs[k])
+			}
+			mu.Lock()
+			total.merge(st)
+			mu.Unlock()
+		}(w)
+	}
+	wg.Wait()
+	return int64(len(jobs))
 }
 
 // ---- random sampling beyond the bound ---------------------------------------------------------------
@@ -1035,7 +1211,7 @@ func (g *vc06Gen) input(all []vc06Sym) string {
 	return b.String()
 }
 
-func vc06Random(seed int64, count int, total *vc06Stats, samples *[]string) (distinct int) {
+func vc06Random(seed int64, count int, bounds vc06Bounds, total *vc06Stats, samples *[]string) (distinct int) {
 	all := append(append([]vc06Sym{}, vc06Main...), vc06Extra...)
 	workers := runtime.NumCPU()
 	per := count / workers
@@ -1051,6 +1227,9 @@ func vc06Random(seed int64, count int, total *vc06Stats, samples *[]string) (dis
 			seen := map[uint64]string{}
 			for k := 0; k < per; k++ {
 				in := g.input(all)
+				if in == "" || bounds.covered(strings.Split(in, " ")) {
+					continue
+				}
 				h := fnv.New64a()
 				h.Write([]byte(in))
 				if _, dup := seen[h.Sum64()]; dup {
@@ -1117,11 +1296,13 @@ func TestVerifStandin_C06(t *testing.T) {
 		tier = "quick"
 	}
 	seed := int64(vc06EnvInt("VERIF_SEED", 1))
-	mainLen, extraLen, randomN := 5, 3, 300000
+	// quick: main alphabet to 4, reduced alphabet at 5; thorough: 5 and 6
+	mainLen, extraLen, randomN := 4, 3, 300000
 	if tier == "thorough" {
-		mainLen, extraLen, randomN = 6, 4, 4000000
+		mainLen, extraLen, randomN = 5, 4, 3000000
 	}
 	mainLen = vc06EnvInt("VERIF_C06_LEN", mainLen)
+	redLen := vc06EnvInt("VERIF_C06_RLEN", mainLen+1)
 	extraLen = vc06EnvInt("VERIF_C06_XLEN", extraLen)
 	randomN = vc06EnvInt("VERIF_C06_RANDOM", randomN)
 
@@ -1138,16 +1319,23 @@ func TestVerifStandin_C06(t *testing.T) {
 		samples = append(samples, strconv.Quote(in))
 		bound = "replay of the single input given in VERIF_INPUT, without and with default field"
 	} else {
-		vc06Check(total, "", []vc06Sym{})
-		vc06Enumerate(vc06Main, mainLen, -1, total, &samples)
 		all := append(append([]vc06Sym{}, vc06Main...), vc06Extra...)
-		vc06Enumerate(all, extraLen, len(vc06Main), total, &samples)
-		distinct := vc06Random(seed, randomN, total, &samples)
-		bound = fmt.Sprintf("x {no default field, default field %q}: (1) every sequence of 0..%d symbols over the %d-symbol alphabet %v rendered with single spaces; "+
-			"(2) every sequence of 1..%d symbols over that alphabet plus %d further term lexemes %v containing at least one of the latter; "+
-			"(3) %d distinct seeded random inputs (grammar-generated queries with up to 2 token mutations, and arbitrary sequences of 6..12 tokens, random layout). "+
-			"Non-trivial = accepted by Parse in at least one configuration (the derivation check ran).",
-			vc06Field, mainLen, len(vc06Main), vc06Texts(vc06Main), extraLen, len(vc06Extra), vc06Texts(vc06Extra), distinct)
+		bounds := vc06Bounds{mainLen, redLen, extraLen}
+		vc06Check(total, "", []vc06Sym{})
+		n1 := 1 + vc06Enumerate(vc06Main, 1, mainLen, -1, total)
+		n2 := vc06Enumerate(vc06Reduced, mainLen+1, redLen, -1, total)
+		n3 := vc06Enumerate(all, 1, extraLen, len(vc06Main), total)
+		n4 := vc06Neighbourhood(all, bounds, total)
+		n5 := vc06Random(seed, randomN, bounds, total, &samples)
+		samples = append([]string{`""`, `"a"`, `"a : b"`, `"NOT a AND b"`, `"( a ) ~ 7"`, `"a : [ 7 TO b ]"`, `"été a"`}, samples...)
+		bound = fmt.Sprintf("all inputs x {no default field, default field %q}. Inputs: (1) every sequence of 0..%d symbols over the %d-symbol alphabet %v rendered with single spaces (%d inputs); "+
+			"(2) every sequence of %d..%d symbols over its %d-symbol sub-alphabet %v (%d inputs); "+
+			"(3) every sequence of 1..%d symbols over alphabet (1) plus %d further term lexemes %v that contains one of the latter (%d inputs); "+
+			"(4) every sequence within two substitutions, one deletion or one insertion (over the %d symbols of (3)) of %d longer sentences %v (%d inputs); "+
+			"(5) %d distinct seeded random inputs: grammar-generated queries with up to 2 token mutations and arbitrary sequences of 6..12 tokens, random layout. "+
+			"Non-trivial = accepted by Parse in at least one configuration, so that the derivation check ran.",
+			vc06Field, mainLen, len(vc06Main), vc06Texts(vc06Main), n1, mainLen+1, redLen, len(vc06Reduced), vc06Texts(vc06Reduced), n2,
+			extraLen, len(vc06Extra), vc06Texts(vc06Extra), n3, len(all), len(vc06Templates), vc06Templates, n4, n5)
 	}
 
 	rep := vc06Report{Property: "C06", Tier: tier, Seed: seed, Evaluations: total.evals, Distinct: total.accepted,
